@@ -67,7 +67,29 @@ pub fn check_roundtrip(r: &Request) -> Vec<(String, String)> {
     if parsed.body != r.body {
         fails.push(("C14:roundtrip:body-differs".to_string(), format!("got {:?} want {:?}", show(&parsed.body[..parsed.body.len().min(40)]), show(&r.body[..r.body.len().min(40)]))));
     }
-    // header lookup ignores letter case
+    // header lookup ignores letter case: with the same name present several times in different
+    // letter case, the answer may not depend on how the caller spells the name
+    let mut groups: std::collections::BTreeMap<String, Vec<&Header>> = Default::default();
+    for h in &r.headers {
+        if !h.name.is_empty() {
+            groups.entry(h.name.to_ascii_lowercase()).or_default().push(h);
+        }
+    }
+    for (lower, hs) in &groups {
+        if hs.len() < 2 {
+            continue;
+        }
+        let mut spellings: Vec<String> = hs.iter().map(|h| h.name.clone()).collect();
+        spellings.push(lower.clone());
+        spellings.push(lower.to_ascii_uppercase());
+        spellings.push(flip_case(lower));
+        spellings.sort();
+        spellings.dedup();
+        let answers: Vec<(String, Option<String>)> = spellings.iter().map(|sp| (sp.clone(), parsed.get_header(sp.clone()).map(|h| h.value.clone()))).collect();
+        if answers.iter().any(|(_, a)| *a != answers[0].1) {
+            fails.push(("C14:lookup:answer-depends-on-the-spelling-of-the-name".to_string(), format!("{:?}", answers)));
+        }
+    }
     for h in &r.headers {
         if h.name.is_empty() {
             continue;
@@ -204,11 +226,37 @@ pub fn run(ctx: &mut Ctx) {
     }
     let fifty: Vec<(String, String)> = (0..50).map(|i| (format!("X-H{}", i), values[i % values.len()].clone())).collect();
     rt(ctx, mk("GET", "/a", "HTTP/1.1", &fifty, b"tail"));
-    // bodies
+    // bodies; the declared length agrees with the body, is absent, or disagrees with it
     for b in &bodies {
-        for hs in [vec![], vec![("Content-Length".to_string(), b.len().to_string())]] {
+        let mut lists: Vec<Vec<(String, String)>> = vec![vec![]];
+        for name in ["Content-Length", "content-length"] {
+            for declared in [b.len().to_string(), "0".to_string(), "1".to_string(), b.len().saturating_sub(1).to_string(), (b.len() + 1).to_string(), "99999".to_string(), "-1".to_string(), "a".to_string(), "".to_string()] {
+                lists.push(vec![(name.to_string(), declared)]);
+            }
+        }
+        lists.push(vec![("Transfer-Encoding".to_string(), "chunked".to_string())]);
+        lists.push(vec![("Content-Length".to_string(), "1".to_string()), ("Content-Length".to_string(), "2".to_string())]);
+        for hs in lists {
             rt(ctx, mk("POST", "/a", "HTTP/1.1", &hs, b));
         }
+    }
+    // a longer body with every declared length around it
+    let long: Vec<u8> = (0..21u8).map(|i| b'a' + (i % 26)).collect();
+    for declared in 0..=23usize {
+        rt(ctx, mk("POST", "/a", "HTTP/1.1", &[("Content-Length".to_string(), declared.to_string())], &long));
+    }
+    // the same name several times in different letter case
+    let dup_sets: [&[(&str, &str)]; 6] = [
+        &[("X-Dup", "first"), ("x-dup", "second")],
+        &[("x-dup", "first"), ("X-Dup", "second")],
+        &[("x-dup", "first"), ("X-DUP", "second"), ("X-Dup", "third")],
+        &[("Host", "a"), ("X-Dup", "first"), ("Accept", "b"), ("X-DUP", "second")],
+        &[("X-Dup", "same"), ("X-Dup", "other")],
+        &[("CONTENT-LENGTH", "1"), ("content-length", "2"), ("Content-Length", "3")],
+    ];
+    for set in dup_sets {
+        let hs: Vec<(String, String)> = set.iter().map(|(n, v)| (n.to_string(), v.to_string())).collect();
+        rt(ctx, mk("GET", "/a", "HTTP/1.1", &hs, b""));
     }
     // boundary of acceptance
     let b_methods: Vec<&str> = METHODS.iter().cloned().chain(["get", "GETT", "GE", "", "FOO", "Get"]).collect();
